@@ -173,6 +173,8 @@ pub fn plan(property: &str, tier: Tier) -> Option<Plan> {
             jobs.push(g("c01/late", "rel", if q { 7 } else { 10 }).armed(&a));
             jobs.push(g("shapes/diamond", "rel", if q { 6 } else { 9 }).armed(&a));
             jobs.push(g("shapes/pending", "rel", if q { 4 } else { 7 }).armed(&a));
+            jobs.push(g("shapes/bindvars", "rel", if q { 6 } else { 8 }).armed(&a));
+            jobs.push(g("shapes/bindvars", "rel", if q { 6 } else { 8 }).armed(&a));
             if !q {
                 jobs.push(g("c01/grammar3-maps", "rel", 5).armed(&a));
                 jobs.push(g("c01/grammar3-binds", "rel", 5).armed(&a));
@@ -215,6 +217,9 @@ pub fn plan(property: &str, tier: Tier) -> Option<Plan> {
             jobs.push(g("c01/catalogue", "rel", if q { 6 } else { 8 }).armed(&a));
             jobs.push(g(if q { "c01/grammar2-repr" } else { "c01/grammar2" }, "rel", if q { 5 } else { 6 }).armed(&a));
             jobs.push(g("c03/stale_rhs", "dbg", if q { 5 } else { 8 }).armed(&a));
+            // bind closures that create variables (top scope / current scope) and hand back their watch nodes
+            jobs.push(g("shapes/bindvars", "rel", if q { 6 } else { 8 }).armed(&a));
+            jobs.push(g("shapes/bindvars", "dbg", if q { 5 } else { 7 }).armed(&a));
             ("model_checking", mc_rule, vec!["inner nodes are observed only while their defining bind is observed (DESIGN §8)", "value domain {0,1,2}", "bind nesting depth <= 2"], if q { 60 } else { 900 })
         }
         "C04" => {
@@ -239,6 +244,14 @@ pub fn plan(property: &str, tier: Tier) -> Option<Plan> {
                 jobs.push(g("shapes/xp-writes", prof, if q { 5 } else { 7 }).armed(&a));
                 jobs.push(g("shapes/fn-writes", prof, if q { 6 } else { 9 }).armed(&a));
                 jobs.push(g("shapes/pending", prof, if q { 5 } else { 7 }).armed(&a));
+                jobs.push(g("shapes/bindvars", prof, if q { 6 } else { 8 }).armed(&a));
+                // the other worlds keep to the usage rules too: their panics are C04's as well (core::also_as_c04)
+                jobs.push(JobDef::new("vars", "c08/dropped", prof, if q { 6 } else { 8 }).armed(&a));
+                jobs.push(JobDef::new("vars", "c08/late", prof, if q { 5 } else { 7 }).armed(&a));
+                jobs.push(JobDef::new("vars", "c08/node", prof, if q { 4 } else { 6 }).armed(&a));
+                jobs.push(JobDef::new("expert", "all", prof, if q { 6 } else { 8 }).armed(&a));
+                jobs.push(JobDef::new("pkmaps", "c16/all-k2", prof, if q { 4 } else { 6 }).armed(&a));
+                jobs.push(JobDef::new("drops", if q { "c12/catalogue" } else { "c12/catalogue-full" }, prof, if q { 12 } else { 14 }).armed(&a).no_prune());
                 jobs.push(g("c01/late", prof, if q { 6 } else { 9 }).armed(&a));
                 jobs.push(g("shapes/diamond", prof, if q { 5 } else { 8 }).armed(&a));
                 jobs.push(g("c09/self_disallow", prof, if q { 5 } else { 8 }).armed(&a));
@@ -264,6 +277,7 @@ pub fn plan(property: &str, tier: Tier) -> Option<Plan> {
             jobs.push(g("c05/stale", "rel", if q { 8 } else { 10 }).armed(&a));
             jobs.push(g("c05/stale", "dbg", if q { 7 } else { 9 }).armed(&a));
             jobs.push(g("c05/clones", "dbg", if q { 5 } else { 7 }).armed(&a));
+            jobs.push(g("shapes/bindvars", "rel", if q { 6 } else { 8 }).armed(&a));
             ("model_checking", mc_rule, vec!["dependency cone computed syntactically by the harness from the program and the reference's current bind right-hand sides"], if q { 60 } else { 900 })
         }
         "C06" => {
@@ -357,6 +371,7 @@ pub fn plan(property: &str, tier: Tier) -> Option<Plan> {
             jobs.push(g("c11/on_update", "dbg", if q { 4 } else { 6 }).armed(&a));
             jobs.push(g("shapes/fn-writes", "rel", if q { 6 } else { 9 }).armed(&a));
             jobs.push(g("shapes/pending", "rel", if q { 4 } else { 7 }).armed(&a));
+            jobs.push(g("shapes/bindvars", "rel", if q { 6 } else { 8 }).armed(&a));
             let mut j = g("c10/focus", "rel", if q { 8 } else { 10 }).armed(&a);
             j.split_first = true;
             jobs.push(j);
